@@ -71,6 +71,9 @@ PURE_FUNCS = {
     "sum", "min", "max", "enumerate", "zip", "reversed", "iter", "next", "range", "map", "filter", "type", "id", "hash", "bytes", "open",
     "reduce", "combinations", "product", "permutations", "chain", "defaultdict", "Queue", "Path", "getattr", "hasattr", "abs", "round",
     "NamedTemporaryFile", "format", "vars", "callable", "super",
+    # logging / warnings / diagnostics never touch their arguments
+    "debug", "info", "warning", "error", "exception", "critical", "log", "warn", "pprint", "pformat", "dumps", "cast", "TypeVar", "namedtuple", "field", "lru_cache", "wraps",
+    "islice", "accumulate", "zip_longest", "count", "repeat", "starmap", "groupby", "partial", "deque", "Counter", "OrderedDict", "frozenset", "bytes", "divmod", "pow",
 }
 NX_MUTATING_FUNCS = {"set_node_attributes", "set_edge_attributes", "freeze"}
 
@@ -930,6 +933,12 @@ class FuncAnalysis:
     def call_unknown(self, n, name, argav, kwav):
         allargs = list(argav) + list(kwav.values())
         base = name.split(".")[-1] if name else name
+        if base == "deepcopy" and allargs:
+            return AV((), allargs[0].kind)
+        if name in ("copy.copy", "copy") and len(allargs) == 1 and base == "copy":
+            # shallow copy of an object: a new object whose fields are the same objects
+            a = allargs[0]
+            return AV((), a.kind, g=project(a, "graph") if a.kind in ("Circuit", None) else a.g, r=project(a, "registry") if a.kind in ("Circuit", None) else a.r, elems=a.elems | bb_tags(a))
         if base in PURE_FUNCS:
             out = set()
             carry = base in ("next", "iter", "reversed", "enumerate", "zip", "filter", "map", "list", "set", "tuple", "sorted", "frozenset", "dict", "reduce", "max", "min")
